@@ -166,3 +166,41 @@ PROPS['C08'] = {
     'assumptions': [],
     'validate_per_harness': 6,
 }
+
+
+# ---------------------------------------------------------------- C11
+def c11_jobs(tier, seed):
+    jobs = []
+    for r in (0, 1, 2):
+        jobs.append(('vh_c11_new', [r], CUT))
+        jobs.append(('vh_c11_ldexp', [r], CUT))
+    jobs.append(('vh_c11_frexp', [], CUT))
+    jobs += r_jobs([64, 128], tier, seed, sample=4)
+    return jobs
+
+
+PROPS['C11'] = {
+    'jobs': c11_jobs,
+    'must_reach': ['C11:new', 'C11:newzero', 'C11:newinf', 'C11:new0', 'C11:ldexp', 'C11:ldexpzero', 'C11:ldexpinf', 'C11:ldexpspecial', 'C11:frexp', 'C11:frexpspecial', 'R:finite', 'R:flush', 'R:overflow', 'R:clamped'],
+    'bounds': {'quick': 'New: all int64 coefficients x every int exponent in three regions (below -6195, -6195..6150, above); Ldexp: every 128-bit pattern x every int exponent in three regions of the total exponent; Frexp: every 128-bit pattern; DefaultRoundingMode symbolic (6 modes). Rounding kernels reduce64 (all subnormal depths/overflow excesses sampled in quick) and reduce128.',
+               'thorough': 'same entry-point queries; reduce64/reduce128 contracts for every subnormal depth 1..37 and overflow excess 1..36.'},
+    'outside': 'Ldexp(Frexp(d)) == d is a corollary of the two value specifications',
+    'assumptions': ['assume-guarantee at the rounding kernel (contract R, precondition P proved at the call sites)',
+                    'rounding follows DefaultRoundingMode (nearest-even by default), checked for all six values'],
+    'validate_per_harness': 3,
+}
+
+
+# ---------------------------------------------------------------- C19
+def c19_jobs(tier, seed):
+    return [('vh_c19_canonical', [c]) for c in (0, 1, 2, 3)]
+
+
+PROPS['C19'] = {
+    'jobs': c19_jobs,
+    'must_reach': ['C19:finite', 'C19:zero', 'C19:inf', 'C19:nan'],
+    'bounds': {'all': 'Canonical on every 128-bit pattern (finite incl. all cohort members and zeros, +-Inf and NaN with arbitrary payload/garbage bits); both scaling loops fully unrolled (<= 36 iterations each, loop bound 600 never reached).'},
+    'outside': 'encoding independence of Exp/Log/Sqrt/Cbrt/Pow general path, formatting and conversions is not covered here (C16/C17 not applicable; see the per-property checks for the others)',
+    'assumptions': ['identical bits <=> Equal follows from the unique-member characterisation proved here plus C04 (Equal agrees with the exact order)'],
+    'validate_per_harness': 4,
+}
